@@ -78,8 +78,8 @@ type Options struct {
 	TrustBase []string
 	// AddStates/AddTransitions/AddTraces: counts of sequential (Engine Q/E) parts run by the parent before Main
 	AddStates, AddTransitions, AddTraces int64
-	ExtraSamples []any
-	NotExhaustive bool
+	ExtraSamples                         []any
+	NotExhaustive                        bool
 }
 
 // Main runs the jobs according to the mode (parent / worker / replay) and never returns.
